@@ -453,25 +453,9 @@ func helperAccesses(h *ssa.Function) []helperAccess {
 		if sp := ic.indexSpace(ia.Index, 0); sp == spActive {
 			acc.sp = sp
 		}
-		// a range / counting loop over another parameter
-		var ph *ssa.Phi
-		switch x := stripConv(root(ia.Index)).(type) {
-		case *ssa.Phi:
-			ph = x
-		case *ssa.BinOp:
-			if x.Op == token.ADD {
-				ph, _ = x.X.(*ssa.Phi)
-			}
-		}
-		if ph != nil {
-			for _, l := range ic.loops[h] {
-				if l.header == ph.Block() {
-					if rs := l.rangedSlice(); rs != nil {
-						acc.over = pidx(rs)
-					}
-				}
-			}
-		}
+		// a range / counting loop over another parameter (also when the position is kept in a variable
+		// that starts at a constant: `src := -1; for i := range xs { …; src = i }; ys[src]`)
+		acc.over = positionOver(h, ic, ia.Index, pidx, 0, map[ssa.Value]bool{})
 		out = append(out, acc)
 	})
 	return out
@@ -511,7 +495,7 @@ func r25HelperCalls(c *RuleCtx, propOf func(*ssa.Function) []string) {
 					continue
 				}
 				args := cs.Common().Args
-				accs := helperAccesses(h)
+				accs := append(helperAccesses(h), forwardedAccesses(p, h, 0)...)
 				if len(accs) == 0 {
 					continue
 				}
@@ -547,7 +531,7 @@ func r25HelperCalls(c *RuleCtx, propOf func(*ssa.Function) []string) {
 						}
 					}
 					for _, b := range accs[i+1:] {
-						if b.param == a.param || b.idx != a.idx {
+						if b.param == a.param || b.idx != a.idx || a.idx == nil {
 							continue
 						}
 						if sb := spaceOfArg(b.param); sb != spUnknown {
@@ -570,4 +554,139 @@ func r25HelperCalls(c *RuleCtx, propOf func(*ssa.Function) []string) {
 		}
 	}
 	c.okP([]string{"C06", "C13"}, "helper-calls", "-", fmt.Sprintf("calls handing index-space-typed tables to helpers that index them: %d (pinned tree: 4)", n))
+}
+
+// positionOver: v is a position in parameter k of h — the index of a loop over it, possibly carried in a
+// variable whose other values are constants, or the result of a helper that returns such a position of
+// one of its parameters, handed parameter k. Returns k, or -1.
+func positionOver(h *ssa.Function, ic *idxCtx, v ssa.Value, pidx func(ssa.Value) int, depth int, seen map[ssa.Value]bool) int {
+	if v == nil || depth > 6 || seen[v] {
+		return -1
+	}
+	seen[v] = true
+	switch x := stripConv(root(v)).(type) {
+	case *ssa.BinOp:
+		if x.Op == token.ADD {
+			if _, isK := constInt64(x.Y); isK {
+				return positionOver(h, ic, x.X, pidx, depth+1, seen)
+			}
+		}
+	case *ssa.Phi:
+		for _, l := range ic.loops[h] {
+			if l.header == x.Block() {
+				if rs := l.rangedSlice(); rs != nil {
+					if k := pidx(rs); k >= 0 {
+						return k
+					}
+				}
+			}
+		}
+		k := -1
+		for _, e := range x.Edges {
+			if _, isK := e.(*ssa.Const); isK || e == ssa.Value(x) {
+				continue
+			}
+			ke := positionOver(h, ic, e, pidx, depth+1, seen)
+			if ke < 0 || (k >= 0 && ke != k) {
+				return -1
+			}
+			k = ke
+		}
+		return k
+	case *ssa.Call:
+		g := x.Call.StaticCallee()
+		if g == nil || len(g.Blocks) == 0 || g == h {
+			return -1
+		}
+		if kg := returnsPositionOf(g); kg >= 0 && kg < len(x.Call.Args) {
+			return pidx(x.Call.Args[kg])
+		}
+	}
+	return -1
+}
+
+// returnsPositionOf: every non-constant value g returns (first result, an int) is a position in one and
+// the same slice parameter of g; returns its index, or -1.
+func returnsPositionOf(g *ssa.Function) int {
+	if g.Signature.Results().Len() == 0 {
+		return -1
+	}
+	if bt, ok := g.Signature.Results().At(0).Type().Underlying().(*types.Basic); !ok || bt.Info()&types.IsInteger == 0 {
+		return -1
+	}
+	pidx := func(v ssa.Value) int {
+		prm, ok := root(v).(*ssa.Parameter)
+		if !ok {
+			return -1
+		}
+		for i, q := range g.Params {
+			if q == prm {
+				if _, isSl := q.Type().Underlying().(*types.Slice); isSl {
+					return i
+				}
+			}
+		}
+		return -1
+	}
+	ic := &idxCtx{fn: g, loops: map[*ssa.Function][]*natLoop{g: naturalLoops(g)}, active: map[string]bool{}, seg: map[string]bool{}, sized: map[ssa.Value]idxSpace{}}
+	k := -1
+	for _, ret := range returnsOf(g) {
+		rv := returnedValue(ret, 0)
+		if _, isK := root(rv).(*ssa.Const); isK {
+			continue
+		}
+		kr := positionOver(g, ic, rv, pidx, 0, map[ssa.Value]bool{})
+		if kr < 0 || (k >= 0 && kr != k) {
+			return -1
+		}
+		k = kr
+	}
+	return k
+}
+
+// forwardedAccesses: the constraints that helper h passes on from the helpers it hands its own slice
+// parameters to (`mergeAndWrite(segs, infos, drops)` calls `soleIntact(infos, drops)`, which indexes drops
+// by a position in infos).
+func forwardedAccesses(p *Program, h *ssa.Function, depth int) []helperAccess {
+	if depth > 2 || h == nil || len(h.Blocks) == 0 {
+		return nil
+	}
+	pidx := func(v ssa.Value) int {
+		prm, ok := root(v).(*ssa.Parameter)
+		if !ok {
+			return -1
+		}
+		for i, q := range h.Params {
+			if q == prm {
+				return i
+			}
+		}
+		return -1
+	}
+	var out []helperAccess
+	for _, cs := range callSites(h) {
+		g := staticCallee(cs)
+		if g == nil || !p.InZap(g) || g.Parent() != nil || g == h || len(g.Blocks) == 0 {
+			continue
+		}
+		accs := append(helperAccesses(g), forwardedAccesses(p, g, depth+1)...)
+		args := cs.Common().Args
+		for _, a := range accs {
+			if a.param >= len(args) {
+				continue
+			}
+			pi := pidx(args[a.param])
+			if pi < 0 {
+				continue
+			}
+			na := helperAccess{param: pi, sp: a.sp, over: -1, idx: nil, at: a.at}
+			if a.over >= 0 && a.over < len(args) {
+				na.over = pidx(args[a.over])
+			}
+			if na.sp != spUnknown || na.over >= 0 {
+				out = append(out, na)
+			}
+		}
+	}
+	return out
 }
